@@ -343,7 +343,7 @@ func init() {
 	register(&core.Property{
 		ID:    "C02",
 		Level: "exploration",
-		Rule: "hostile programs built from a token table (every placement of \", \\\", \\\\, \\\\\", \\x5c, \\x5c\", raw and escaped control bytes, raw and escaped non-ASCII runes, \\s-containing classes with neighbours, ^ $ . next to each other and next to group boundaries; 1..4 entries of 1..6 tokens, optional flags, prefix/suffix, block with markers) plus the escapes / white-space-class / flags / affix / cmdline lanes of the C01 generator are compiled by the built CLI; one case in six also runs `regex update` and scans the operand inside its SecRule line. " +
+		Rule: "hostile programs built from a token table (every placement of \", \\\", \\\\, \\\\\", \\x5c, \\x5c\", raw and escaped control bytes, raw and escaped non-ASCII runes, \\s-containing classes with neighbours, ^ $ . next to each other and next to group boundaries; 1..4 entries of 1..6 tokens, optional flags, prefix/suffix, block with markers) plus the escapes / white-space-class / flags / affix / cmdline lanes of the C01 generator are compiled by the built CLI; 51 pinned programs whose prefix / suffix lines make the joined text malformed around well-formed entries; one case in six also runs `regex update` and scans the operand inside its SecRule line. " +
 			"Oracle: a lexical scanner plus regexp/syntax: only bytes 0x20..0x7e; every quote escaped; no two-byte \\\\; \\s always followed by \\x0b and no bracket expression that lists tab, newline, form feed, carriage return and space without the vertical tab; no '(?' other than '(?:' / '(?P<' except one leading group with sorted unique letters from {i,s}; parses as RE2; in `SecRule ARGS \"@rx <out>\" \\` the first unescaped quote is the closing one. Non-trivial = output contains a quote, a backslash or a group. Programs that do not compile are outside the quantifier (skipped).",
 		Cases: func(env *core.Env, rng *rand.Rand) []core.Case {
 			n := env.N(3000, 40000)
@@ -361,6 +361,20 @@ func init() {
 						lane = "triggers"
 					}
 					cs = append(cs, c02Gen(rng, lane))
+				}
+			}
+			// prefix / suffix lines that make the joined text malformed although every entry is fine: either the
+			// program is refused, or what is printed is well-formed
+			for _, aff := range [][2]string{{"", ")"}, {"[a-", "z]"}, {"(?i", ""}, {"", `\`}, {"(", ""}, {"(?:", ""}, {"", "a)"}, {"(foo", ""}, {"[", ""}, {"", "]"}, {"x{", "}"}, {"(?P<n", ">y)"}, {`\`, ""}, {"(?i)", ""}, {"", "(?s)"}, {`"`, `"`}, {`\"`, `\`}} {
+				for _, body := range []string{"foo\nbar\n", "##!+ i\nfo\"o\n", "##!> assemble\n  a\n  b\n##!<\n"} {
+					prog := body
+					if aff[0] != "" {
+						prog = "##!^ " + aff[0] + "\n" + prog
+					}
+					if aff[1] != "" {
+						prog = "##!$ " + aff[1] + "\n" + prog
+					}
+					cs = append(cs, &c02Case{Main: prog, Lane: "malformed-affix", Update: true})
 				}
 			}
 			return cs
